@@ -33,6 +33,9 @@ CLAIMED = {
     "C08": ("instrumented RISC-V emulator (64-bit LW/SW, poison, bounds, wild jumps) on the printed pseudo-assembly vs AxCut positional reference machine",
             "Held on K print-free programs with at most 14 live variables.",
             "Trusted: AxCut machine and the RISC-V emulator.", "6/C08"),
+    "C11": ("exhaustive enumeration of substitution configurations (all maps new(m)->old(n), all kind assignments, window offsets across the register/spill boundary, three backends): the code the real Substitute::code_statement emits is emulated from a state of unique sentinels and the final registers, spill slots, reference counts and free list are compared with the simultaneous-assignment specification; plus random larger maps with shared blocks",
+            "Exhaustive for m,n <= 4 (quick) / <= 5 (thorough) per backend (evidence: exhaustive=true when the enumeration completed); larger maps sampled.",
+            "Trusted: the three emulators; dead temporaries beyond the new environment are not constrained.", "6/C11"),
     "C12": ("structural monitors (type/scope checkers for Core, uniquified Core, focused Core, AxCut, linear AxCut) on every value the real stages produce; panics caught around every stage and all three code generators",
             "Held on K accepted programs; capacity assertions are counted, not judged.",
             "Trusted: the harness' checkers (DESIGN 4).", "6/C12"),
